@@ -721,6 +721,31 @@ fn fixed_checks(ev: &mut Evidence, active: &Active) {
         "pcall-semantics",
         json!({"kind": "fixed", "name": "pcall-continues"}),
     );
+    // numbers as arguments: a Lua number passed to redis.call is the command argument spelled
+    // in decimal (as C's %.17g): generated dyadic rationals (exact in binary, so every
+    // formatting agrees on them) as literals and as results of arithmetic
+    {
+        let mut vals: Vec<(String, String)> = vec![("1.5".into(), "1.5".into()), ("-0.25".into(), "-0.25".into()), ("3".into(), "3".into()), ("3.0".into(), "3".into()), ("-7".into(), "-7".into()), ("tonumber(ARGV[1]) * 1.5".into(), "4.5".into()), ("10 / 4".into(), "2.5".into()), ("2^10 + 0.5".into(), "1024.5".into())];
+        for m in [-1000i64, -37, -1, 1, 5, 99, 12345] {
+            for k in [1u32, 2, 4] {
+                let v = m as f64 / (1u64 << k) as f64;
+                vals.push((format!("{}", v), format!("{}", v)));
+            }
+        }
+        for (expr, want) in &vals {
+            let script = format!("redis.call('SET', KEYS[1], {}); return redis.call('GET', KEYS[1])", expr);
+            let r = c.cmd(&["EVAL", script.as_str(), "1", "num:k", "3"]);
+            check(ev, "numeric-argument", bulk_of(&r) == Some(want.as_bytes().to_vec()), format!("script `{}` stored {:?}, but the number {} as a command argument is \"{}\"", script, r, expr, want), "numeric-argument", json!({"kind": "fixed", "script": script}));
+            let script = format!("redis.call('DEL', KEYS[1]); redis.call('ZADD', KEYS[1], {}, 'm'); return redis.call('ZSCORE', KEYS[1], 'm')", expr);
+            let r = c.cmd(&["EVAL", script.as_str(), "1", "num:z", "3"]);
+            let direct = {
+                let _ = c.cmd(&["DEL", "num:zd"]);
+                let _ = c.cmd(&["ZADD", "num:zd", want.as_str(), "m"]);
+                c.cmd(&["ZSCORE", "num:zd", "m"])
+            };
+            check(ev, "numeric-argument", r == direct, format!("script `{}` -> {:?}, the direct ZADD with score {} gives {:?}", script, r, want, direct), "numeric-argument", json!({"kind": "fixed", "script": script}));
+        }
+    }
     // a plain string return, an uncaught error
     let r = c.cmd(&["EVAL", "return 'hello'", "0"]);
     check(ev, "plain-return", bulk_of(&r) == Some(bs("hello")), format!("return 'hello' -> {:?}", r), "plain-return", json!({"kind": "fixed", "name": "plain-return"}));
@@ -826,7 +851,7 @@ pub fn run(tier: Tier, seed: u64, replay: Option<Value>) -> i32 {
         tier,
         seed,
         "exploration",
-        "twin servers fed the same generated history (1..20 steps in a generated selected database 0/3/9) over the deterministic data catalogue of C01/C03/C04/C15 (strings, keys, lists, sets, hashes, sorted sets, streams; boundary indices, bad arguments, wrong types): twin D gets the command directly, twin S gets it wrapped as redis.call / redis.pcall / with the key passed through KEYS / through EVALSHA after SCRIPT LOAD, in a script that renders what it saw as a tagged string (number, string with length, false, nil, table with maxn, ok-table, err-table). Oracles: the rendering equals the standard RESP->Lua conversion of D's reply (numbers compared as doubles), an error reply on D means a raised error (call) or an err-table (pcall) on S, and the canonical dumps of the twins are equal after every step. Fixed script checks in every run: KEYS/ARGV bytes via string.byte for 9 byte patterns incl. all 256 byte values; redis.call aborts / redis.pcall continues with earlier effects kept; plain string return and uncaught error; EVALSHA == EVAL in a non-zero database, unknown and upper-case digests; 23 sandbox escapes (os, io, require, dofile, loadfile, package, debug, getfenv, popen) with a canary directory; 25 forbidden commands through redis.call. Return shapes: generated nested Lua literals returned by a script vs. the standard Lua->RESP conversion. Atomicity: the concurrent transfer workload of C07 with the transfer done by a script. Non-trivial = a wrapped command that mutates, returns a nested/nil-bearing reply, or errors; distinct by hash of the case",
+        "twin servers fed the same generated history (1..20 steps in a generated selected database 0/3/9) over the deterministic data catalogue of C01/C03/C04/C15 (strings, keys, lists, sets, hashes, sorted sets, streams; boundary indices, bad arguments, wrong types): twin D gets the command directly, twin S gets it wrapped as redis.call / redis.pcall / with the key passed through KEYS / through EVALSHA after SCRIPT LOAD, in a script that renders what it saw as a tagged string (number, string with length, false, nil, table with maxn, ok-table, err-table). Oracles: the rendering equals the standard RESP->Lua conversion of D's reply (numbers compared as doubles), an error reply on D means a raised error (call) or an err-table (pcall) on S, and the canonical dumps of the twins are equal after every step. Fixed script checks in every run: KEYS/ARGV bytes via string.byte for 9 byte patterns incl. all 256 byte values; redis.call aborts / redis.pcall continues with earlier effects kept; numbers (literals and arithmetic results, dyadic rationals) passed as arguments to redis.call vs. their decimal spelling sent directly; plain string return and uncaught error; EVALSHA == EVAL in a non-zero database, unknown and upper-case digests; 23 sandbox escapes (os, io, require, dofile, loadfile, package, debug, getfenv, popen) with a canary directory; 25 forbidden commands through redis.call. Return shapes: generated nested Lua literals returned by a script vs. the standard Lua->RESP conversion. Atomicity: the concurrent transfer workload of C07 with the transfer done by a script. Non-trivial = a wrapped command that mutates, returns a nested/nil-bearing reply, or errors; distinct by hash of the case",
     ));
     ev.lock().unwrap().assumptions.push("return values: generated nested Lua literals (nil, true, integers, binary strings, nested tables with holes) are compared with the standard Lua-to-RESP conversion; false, non-integral numbers and empty tables are not generated because the repository's own tests pin a non-standard conversion for them (false -> :0, 3.14 -> bulk string, {} -> nil)".into());
     // known findings: probed through the wrapper itself
